@@ -46,7 +46,9 @@ func TestWorker(t *testing.T) {
 		if err := json.Unmarshal(b, &rf); err != nil {
 			t.Fatal(err)
 		}
+		stop := core.StartReplayWatchdog(out, envInt("VSIM_TIMEOUT_S", 300))
 		res := core.Replay(t, &rf)
+		stop()
 		ob, _ := json.MarshalIndent(res, "", " ")
 		if err := os.WriteFile(out, ob, 0o644); err != nil {
 			t.Fatal(err)
